@@ -75,6 +75,13 @@ class GenericQuantity(object):
         return q
     """
 
+    def _incompatible(self, other_value, other_units):
+        # A bare (unitless) zero may be combined with any quantity; every
+        # other operand, a zero-valued quantity included, needs our units.
+        if not other_units:
+            return not is_zero(other_value)
+        return not self.has_units(other_units)
+
     def in_units(self, units):
         """
         Convert to specified `units` and return numerical value.
@@ -123,16 +130,14 @@ class GenericQuantity(object):
     def __eq__(self, other):
         (self_value, self_units) = self._unpack_qty(self)
         (other_value, other_units) = self._unpack_qty(other)
-        if not is_zero(other) and (not other_units or
-                                   not self.has_units(other_units)):
+        if self._incompatible(other_value, other_units):
             return False
         return self_value == other_value
 
     def __ne__(self, other):
         (self_value, self_units) = self._unpack_qty(self)
         (other_value, other_units) = self._unpack_qty(other)
-        if not is_zero(other) and (not other_units or
-                                   not self.has_units(other_units)):
+        if self._incompatible(other_value, other_units):
             return True
         return self_value != other_value
 
@@ -149,8 +154,7 @@ class GenericQuantity(object):
     def __lt__(self, other):
         (self_value, self_units) = self._unpack_qty(self)
         (other_value, other_units) = self._unpack_qty(other)
-        if (not is_zero(other_value) and
-                (not other_units or not self.has_units(other_units))):
+        if self._incompatible(other_value, other_units):
             raise UnitsError(
                 'Incompatible units %s vs %s in comparison'
                 % (self_units, other_units))
@@ -159,8 +163,7 @@ class GenericQuantity(object):
     def __gt__(self, other):
         (self_value, self_units) = self._unpack_qty(self)
         (other_value, other_units) = self._unpack_qty(other)
-        if (not is_zero(other_value) and
-                (not other_units or not self.has_units(other_units))):
+        if self._incompatible(other_value, other_units):
             raise UnitsError(
                 'Incompatible units %s vs %s in comparison'
                 % (self_units, other_units))
@@ -169,8 +172,7 @@ class GenericQuantity(object):
     def __ge__(self, other):
         (self_value, self_units) = self._unpack_qty(self)
         (other_value, other_units) = self._unpack_qty(other)
-        if (not is_zero(other_value) and
-                (not other_units or not self.has_units(other_units))):
+        if self._incompatible(other_value, other_units):
             raise UnitsError(
                 'Incompatible units %s vs %s in comparison'
                 % (self_units, other_units))
@@ -179,8 +181,7 @@ class GenericQuantity(object):
     def __le__(self, other):
         (self_value, self_units) = self._unpack_qty(self)
         (other_value, other_units) = self._unpack_qty(other)
-        if (not is_zero(other_value) and
-                (not other_units or not self.has_units(other_units))):
+        if self._incompatible(other_value, other_units):
             raise UnitsError(
                 'Incompatible units %s vs %s in comparison'
                 % (self_units, other_units))
@@ -189,8 +190,7 @@ class GenericQuantity(object):
     def __add__(self, other):
         (self_value, self_units) = self._unpack_qty(self)
         (other_value, other_units) = self._unpack_qty(other)
-        if (not is_zero(other_value) and
-                (not other_units or not self.has_units(other_units))):
+        if self._incompatible(other_value, other_units):
             raise UnitsError(
                 'Incompatible units %s vs %s in addition'
                 % (self_units, other_units))
@@ -199,8 +199,7 @@ class GenericQuantity(object):
     def __radd__(self, other):
         (self_value, self_units) = self._unpack_qty(self)
         (other_value, other_units) = self._unpack_qty(other)
-        if (not is_zero(other_value) and
-                (not other_units or not self.has_units(other_units))):
+        if self._incompatible(other_value, other_units):
             raise UnitsError(
                 'Incompatible units %s vs %s in addition'
                 % (self_units, other_units))
@@ -209,8 +208,7 @@ class GenericQuantity(object):
     def __sub__(self, other):
         (self_value, self_units) = self._unpack_qty(self)
         (other_value, other_units) = self._unpack_qty(other)
-        if (not is_zero(other_value) and
-                (not other_units or not self.has_units(other_units))):
+        if self._incompatible(other_value, other_units):
             raise UnitsError(
                 'Incompatible units %s vs %s in subtraction'
                 % (self_units, other_units))
@@ -219,8 +217,7 @@ class GenericQuantity(object):
     def __rsub__(self, other):
         (self_value, self_units) = self._unpack_qty(self)
         (other_value, other_units) = self._unpack_qty(other)
-        if (not is_zero(other_value) and
-                (not other_units or not self.has_units(other_units))):
+        if self._incompatible(other_value, other_units):
             raise UnitsError(
                 'Incompatible units %s vs %s in subtraction'
                 % (self_units, other_units))
